@@ -6,8 +6,9 @@
      sig.from_hex_der text               -> OK:<r>;<s>
      sig.compact r s recid comp          -> OK:<65 bytes>;<r'>;<s'>;<hdr'>
      sig.from_compact bytes              -> OK:<r>;<s>;<hdr>
-     sig.recover compact msg hash        -> OK:K;<pubkey> | OK:E
-     sig.recover_digest compact digest   -> OK:K;<pubkey> | OK:E
+     sig.recover compact msg hash        -> OK:K;<len>;<pubkey> | OK:E
+     sig.recover_digest compact digest   -> OK:K;<len>;<pubkey> | OK:E
+     sig.sign_recover_digest key comp msg hash rk digest -> OK:<same>;<pubkey> | OK:E
      sig.sign_recover key comp msg hash rk msg2 hash2 -> OK:<same>;<pubkey> | OK:E
      sig.compact_der der info            -> OK:<65 bytes>            (object without recovery info; info = n | <recid><c>)
      sig.signed key comp msg hash rk info msg2 hash2 -> OK:<65 bytes>;<K<pubkey>|E>;<v>   (the signer's in-memory object)
@@ -72,16 +73,43 @@ Definition run_from_compact (bs : bytes) : string :=
         end) "-".
 
 Definition rec_out (o : outcome pubkey) : outcome string :=
-  match o with Ok p => Ok ("K;" +++ show_bytes (pk_point p)) | Err => Ok "E" | Panic => Panic end.
+  match o with
+  | Ok p => Ok ("K;" +++ dec_of_N (N.of_nat (length (pk_point p))) +++ ";" +++ show_bytes (pk_point p))
+  | Err => Ok "E"
+  | Panic => Panic
+  end.
 
-(* recovery of an arbitrary compact signature: the property demands that it returns a key or an error — never a panic
-   (in particular for signatures that recover to the point at infinity, s*R = z*G) *)
-Definition no_panic_spec : string := "OK:K;*~OK:E~ERR".
+(* recovery of an arbitrary compact signature, either entry point: the property demands that it returns an error or a key
+   IN THE FORM RECORDED IN THE HEADER (33 bytes for headers 31..34, 65 bytes for 27..30) — never a panic (in particular
+   not for signatures that recover to the point at infinity, s*R = z*G); a compact string that does not parse: ERR *)
+Definition recover_spec (cb : bytes) : string :=
+  match spec_compact_parse cb with
+  | Some (_, _, _, compressed) => "OK:K;" +++ (if compressed then "33" else "65") +++ ";*~OK:E"
+  | None => "ERR"
+  end.
 
 Definition run_recover (cb msg : bytes) (h : signing_hash) : string :=
-  out3 (render (do sg <- from_compact_impl cb; rec_out (get_public_key FP sg msg h))) no_panic_spec "-".
+  out3 (render (do sg <- from_compact_impl cb; rec_out (get_public_key FP sg msg h))) (recover_spec cb) "-".
 Definition run_recover_digest (cb digest : bytes) : string :=
-  out3 (render (do sg <- from_compact_impl cb; rec_out (get_public_key_from_digest FP sg digest))) no_panic_spec "-".
+  out3 (render (do sg <- from_compact_impl cb; rec_out (get_public_key_from_digest FP sg digest))) (recover_spec cb) "-".
+
+(* sign -> compact -> parse -> recover_public_key_from_digest: for the digest the signer used, exactly the signer's key in
+   the signer's form; for another digest not that key *)
+Definition run_sign_recover_digest (kb : bytes) (c : bool) (msg : bytes) (h : signing_hash) (rk : bool) (digest : bytes) : string :=
+  out3 (render (do k <- key_of kb c;
+                do sg <- sign_with_deterministic_k FP k msg h rk;
+                do back <- from_compact_impl (to_compact_bytes sg None);
+                let own := pk_point (to_public_key FP k) in
+                match get_public_key_from_digest FP back digest with
+                | Ok p => Ok (bit (bytes_eqb (pk_point p) own) +++ ";" +++ show_bytes (pk_point p))
+                | Err => Ok "E"
+                | Panic => Panic
+                end))
+       (if valid_key kb then
+          if bytes_eqb digest (spec_digest (is_double h) msg) then
+            "OK:1;" +++ show_bytes (sec1_encode c (pubkey_fast (be_Z kb)))
+          else "OK:0;*~OK:E"
+        else "ERR") "-".
 
 Definition run_sign_recover (kb : bytes) (c : bool) (msg : bytes) (h : signing_hash) (rk : bool)
            (msg2 : bytes) (h2 : signing_hash) : string :=
@@ -209,6 +237,11 @@ Definition run (op : string) (args : list string) : string :=
       match expand k, flag_of c, expand m, hash_of h, flag_of rk, expand m2, hash_of h2 with
       | Some kb, Some cb, Some mb, Some hh, Some rkb, Some mb2, Some hh2 => run_sign_recover kb cb mb hh rkb mb2 hh2
       | _, _, _, _, _, _, _ => "BADARG"
+      end
+  | "sig.sign_recover_digest", [k; c; m; h; rk; d] =>
+      match expand k, flag_of c, expand m, hash_of h, flag_of rk, expand d with
+      | Some kb, Some cb, Some mb, Some hh, Some rkb, Some db => run_sign_recover_digest kb cb mb hh rkb db
+      | _, _, _, _, _, _ => "BADARG"
       end
   | "sig.compact_der", [d; i] =>
       match expand d, info_of i with Some db, Some info => run_compact_der db info | _, _ => "BADARG" end
